@@ -64,7 +64,7 @@ def Compiles (K : Array Val) (cfg : CompCfg) : Node → List LInstr → Prop
   | .float m bits, code => ∃ k, K[k]? = some (.f64 (Float.ofBits bits)) ∧ code = [li m.loc .push k]
   | .bool m b, code => code = [li m.loc (if b then .true_ else .false_)]
   | .str m s, code => ∃ k, K[k]? = some (.str s) ∧ code = [li m.loc .push k]
-  | .const m v, code => ∃ k, K[k]? = some v ∧ code = [li m.loc .push k]
+  | .const m v, code => (v = .nil ∧ code = [li m.loc .nil_]) ∨ (v ≠ .nil ∧ ∃ k, K[k]? = some v ∧ code = [li m.loc .push k])
   | .unary m op x, code => ∃ cx, Compiles K cfg x cx ∧
       (if op == "!" || op == "not" then code = cx ++ [li m.loc .not_]
        else if op == "+" then code = cx
@@ -139,7 +139,8 @@ theorem Compiles_str (K : Array Val) (cfg : CompCfg) {m} {s} (code : List LInstr
     Compiles K cfg (.str m s) code = (∃ k, K[k]? = some (.str s) ∧ code = [li m.loc .push k]) := rfl
 
 theorem Compiles_const (K : Array Val) (cfg : CompCfg) {m} {v} (code : List LInstr) :
-    Compiles K cfg (.const m v) code = (∃ k, K[k]? = some v ∧ code = [li m.loc .push k]) := rfl
+    Compiles K cfg (.const m v) code =
+      ((v = .nil ∧ code = [li m.loc .nil_]) ∨ (v ≠ .nil ∧ ∃ k, K[k]? = some v ∧ code = [li m.loc .push k])) := rfl
 
 theorem Compiles_unary (K : Array Val) (cfg : CompCfg) {m} {op} {x} (code : List LInstr) :
     Compiles K cfg (.unary m op x) code = (∃ cx, Compiles K cfg x cx ∧
